@@ -30,7 +30,7 @@ TRUSTED = ['harness/c09 watchdog: an operation that does not return within 3 s i
 def generate(rng, tier):
     cc.clean_scratch()
     cases = list(cc.scripted())
-    n = 500 if tier != 'thorough' else 6000
+    n = 500 if tier != 'thorough' else 20000
     for _ in range(n):
         cases.append(cc.gen_history(rng, tier, 'faults' if rng.random() < 0.8 else 'protocol'))
     return cases
